@@ -41,6 +41,14 @@
 (*               LoadAndDelete happen inside the locked section: the lock  *)
 (*               is taken in step "load", the Store is part of step "cs",  *)
 (*               there is no step "store"                                  *)
+(*   FixPutDrop  a Put that replaces a key deletes the index entry when it *)
+(*               removes the old element, so that a Put failing later (in  *)
+(*               the evict loop) does not leave the index pointing at an   *)
+(*               element that is no longer in the list                     *)
+(*   FixDelKeep  (with FixLocked) LoadAndDelete looks the key up, and      *)
+(*               deletes the index entry only after the value's size is    *)
+(*               known; before, a failing Size() left the element in the   *)
+(*               list with its index entry gone                            *)
 (***************************************************************************)
 EXTENDS Integers, Sequences, FiniteSets, TLC, Json, LRUProps
 
@@ -53,7 +61,7 @@ CONSTANTS NT,         \* threads 1..NT
           MaxPoison,  \* how many values may start failing
           InitLists,  \* set of pre-loaded contents (sequences of <<k,v>>, MRU first)
           OpKinds,    \* subset of {"Put","Get","Del","Len","Size","Range"}
-          FixUnlock, FixLocked
+          FixUnlock, FixLocked, FixPutDrop, FixDelKeep
 
 VARIABLES ll, elems, index, size, mtx, bad,
           pc,     \* per thread: "idle","loaded","locked","unlocked","blocked"
@@ -179,7 +187,7 @@ Start(t, o) ==
             IF index[o.k] = 0
             THEN Commit(s0, A(o, t, "load", 1, 1, NF, <<>>))
             ELSE Commit([s0 EXCEPT !.pc[t] = "loaded", !.cur[t] = o, !.lel[t] = index[o.k],
-                                   !.index[o.k] = 0, !.mtx = lk],
+                                   !.index[o.k] = IF FixLocked /\ FixDelKeep THEN @ ELSE 0, !.mtx = lk],
                         A(o, t, "load", 1, 0, 0, <<>>))
        [] o.op = "Len"  -> Commit(s0, A(o, t, "load", 1, 1, Len(ll), <<>>))
        [] o.op = "Size" -> Commit(s0, A(o, t, "load", 1, 1, size, <<>>))
@@ -202,7 +210,8 @@ CS(t) ==
                  Commit([s0 EXCEPT !.ex[t] = "errA", !.lres[t] = ERR], A(o, t, "cs", 0, 0, 0, <<>>))
             ELSE LET l1 == IF e # 0 THEN RemoveEl(ll, e) ELSE ll
                      z1 == IF e # 0 THEN size - Sizes[elems[e].v] ELSE size
-                     r  == EvictLoop(elems, l1, index, z1, Sizes[o.v], FALSE)
+                     i1 == IF e # 0 /\ FixPutDrop THEN [index EXCEPT ![o.k] = 0] ELSE index
+                     r  == EvictLoop(elems, l1, i1, z1, Sizes[o.v], FALSE)
                      ne == Fresh(S)
                  IN  IF ~r.ok
                      THEN Commit([s0 EXCEPT !.ll = r.ll, !.index = r.index, !.size = r.size,
@@ -225,6 +234,7 @@ CS(t) ==
             IF elems[e].v \in bad
             THEN Commit([s0 EXCEPT !.lres[t] = NF], A(o, t, "cs", 0, 0, 0, <<>>))
             ELSE Commit([s0 EXCEPT !.ll = RemoveEl(ll, e), !.size = size - Sizes[elems[e].v],
+                                   !.index[o.k] = IF FixLocked /\ FixDelKeep THEN 0 ELSE @,
                                    !.lres[t] = elems[e].v],
                         A(o, t, "cs", 0, 0, 0, <<>>))
 
